@@ -3,7 +3,7 @@
 TIER=${1:-quick}
 for i in $(seq -w 1 20); do
   s=$(date +%s)
-  out=$(/venv/bin/python /verif/run_check.py C$i --tier $TIER 2>&1); rc=$?
+  out=$(/venv/bin/python "$(dirname "$0")/../run_check.py" C$i --tier $TIER 2>&1); rc=$?
   e=$(date +%s)
   echo "C$i rc=$rc $((e-s))s $(echo "$out" | grep -c '^VIOLATION') viol, $(echo "$out" | grep -c '^KNOWN-FINDING') known; $(echo "$out" | grep -E 'HARNESS' | head -1 | cut -c1-150)"
 done
